@@ -2,6 +2,7 @@ import OdakModel.Generated.Loops
 import OdakProofs.Lemmas.GenGeometry
 import OdakModel.Parametric
 import OdakProofs.Lemmas.SphereSearch
+import OdakProofs.Lemmas.GenCylinder
 import OdakProofs.Lemmas.Geometry
 import Mathlib.Analysis.SpecificLimits.Basic
 
@@ -476,5 +477,110 @@ theorem C12_sphere_search_defaults (ray : Ray ℝ) (c0 c1 c2 r : ℝ) :
   unfold sphereSearch
   rw [hs, sphereSearchWith_succ, ht]
   exact ⟨rfl, _, _, rfl⟩
+
+end Odak
+
+/-! ## NumPy `intersect_w_cylinder` (`odak/raytracing/boundary.py`) over the REGENERATED cylinder routines
+  `Generated/CylinderGen.lean` (translator `harness/translate/cylinder.py`): `cylinder_function`, `point_to_ray_distance`,
+  `closest_point_to_a_ray`, `get_cylinder_normal` and the call `intersect_w_cylinder` makes.  Model: `OdakModel/Cylinder.lean` -
+  the secant loop of `OdakModel/Parametric.lean` with the regenerated cylinder function as its surface function; ties and geometry:
+  `Lemmas/GenCylinder.lean`.  What the regenerated text shows: `point_to_ray_distance` returns a SQUARED distance, so the residual the
+  loop drives below `target_error` is `| dist(point, axis)² - r² |`; the axis is the LINE through `cylinder[0:3]` and `cylinder[4:7]`
+  (the cylinder is infinite); a packed cylinder whose two axis points coincide divides by zero. -/
+namespace Odak
+open Odak.Gen
+
+section anyScalar
+variable {α : Type} [Num α]
+
+/-- for every ray (parallel to the axis, starting inside, grazing, zero direction), every packed cylinder (also a degenerate one),
+    every tolerance and every limit the cylinder intersector returns after at most `limit + 1` passes of the loop body - for every
+    scalar instance, hence also for the `Float` run the driver compares with the real function; with the defaults of the source:
+    at most `iter_no_limit + 1` -/
+theorem C12_gen_cylinder_bounded (ray : Ray α) (cyl : Cylinder α) (target : α) (limit : Nat) :
+    (intersectCylinderWith ray cyl target limit).iters ≤ limit + 1 ∧
+    (intersectCylinder ray cyl).iters ≤ parametricIterLimitN + 1 :=
+  ⟨C12_parametric_bounded _ ray target limit, C12_parametric_bounded _ ray _ _⟩
+
+/-- when the limit is reached the result is the miss value `(False, False)`, never the last iterate; a hit or a NaN exit happens
+    within `limit` passes; the limit exit after exactly `limit + 1` -/
+theorem C12_gen_cylinder_limit_is_miss (ray : Ray α) (cyl : Cylinder α) (target : α) (limit : Nat) :
+    ((intersectCylinderWith ray cyl target limit).iters = limit + 1 →
+      intersectCylinderWith ray cyl target limit = .miss .limit (limit + 1)) ∧
+    (∀ k, intersectCylinderWith ray cyl target limit = .miss .limit k → k = limit + 1) ∧
+    (∀ k, intersectCylinderWith ray cyl target limit = .miss .nan k → k ≤ limit) ∧
+    (∀ dist pt k, intersectCylinderWith ray cyl target limit = .hit dist pt k → k ≤ limit) :=
+  C12_parametric_limit_is_miss _ ray target limit
+
+/-- the surface normal handed back with a hit is the regenerated `get_cylinder_normal` at the returned point; no normal without a hit -/
+theorem C12_gen_cylinder_normal_of_result (ray : Ray α) (cyl : Cylinder α) (target : α) (limit : Nat) :
+    (∀ dist pt k, intersectCylinderWith ray cyl target limit = .hit dist pt k →
+      (intersectCylinderWith ray cyl target limit).cylinderNormal cyl = some (cylinderNormalOf cyl pt)) ∧
+    ((intersectCylinderWith ray cyl target limit).isHit = false →
+      (intersectCylinderWith ray cyl target limit).cylinderNormal cyl = none) := by
+  refine ⟨fun dist pt k h => by rw [h]; rfl, fun h => ?_⟩
+  cases hr : intersectCylinderWith ray cyl target limit with
+  | hit d p k => rw [hr] at h; simp [ParamResult.isHit] at h
+  | miss w k => rfl
+  | unbound => rfl
+
+end anyScalar
+
+/-- hit residual over ℝ, in the terms of the property: for a proper cylinder (`c ≠ p`) the returned point `pt` lies on the ray, within the
+    limit, and its squared distance from the axis LINE (measured to the foot of the perpendicular, which IS perpendicular to the axis)
+    differs from `r²` by at most the tolerance -/
+theorem C12_gen_cylinder_hit_residual (ray : Ray ℝ) (cyl : Cylinder ℝ) (hab : cyl.c ≠ cyl.p) (target : ℝ) (limit : Nat) (dist : ℝ)
+    (pt : Vec3 ℝ) (k : Nat) (h : intersectCylinderWith ray cyl target limit = .hit dist pt k) :
+    |Vec3.normSq (pt - axisFoot pt cyl.c (cyl.p - cyl.c)) - cyl.r ^ 2| ≤ target ∧
+    Vec3.dot (pt - axisFoot pt cyl.c (cyl.p - cyl.c)) (cyl.p - cyl.c) = 0 ∧
+    1 ≤ k ∧ k ≤ limit ∧ ∃ dprev : ℝ, pt = ray.o + Vec3.smul dprev ray.d := by
+  obtain ⟨hres, hk, _, dprev, _, hp, _⟩ := C12_parametric_hit_residual _ ray target limit dist pt k h
+  obtain ⟨h1, _⟩ := C12_parametric_hit _ ray target limit dist pt k h
+  rw [cylinderFunctionN_eq, cylinderFunction, lineDistSq_eq_foot _ _ _ hab] at hres
+  refine ⟨by rw [pow_two]; exact hres, axisFoot_perp _ _ _ (normSq_pos_of_ne hab), h1, hk, dprev, hp⟩
+
+/-- the normal returned with a hit (regenerated `get_cylinder_normal`), for a proper cylinder and a point off the axis: it starts at
+    the foot of the perpendicular on the axis, has unit length, is perpendicular to the axis and points at the hit point -/
+theorem C12_gen_cylinder_normal (pt : Vec3 ℝ) (cyl : Cylinder ℝ) (hab : cyl.c ≠ cyl.p)
+    (hoff : axisFoot pt cyl.c (cyl.p - cyl.c) ≠ pt) :
+    (cylinderNormalOf cyl pt).o = axisFoot pt cyl.c (cyl.p - cyl.c) ∧
+    Vec3.normSq (cylinderNormalOf cyl pt).d = 1 ∧
+    Vec3.dot (cylinderNormalOf cyl pt).d (cyl.p - cyl.c) = 0 ∧
+    (cylinderNormalOf cyl pt).o + Vec3.smul (Vec3.norm (pt - (cylinderNormalOf cyl pt).o)) (cylinderNormalOf cyl pt).d = pt := by
+  rw [getCylinderNormalN_eq]
+  exact cylinderNormal_spec pt cyl hab hoff
+
+/-- a ray whose whole line keeps a residual above the tolerance is never reported as a hit - whatever the secant iteration does -/
+theorem C12_gen_cylinder_line_misses (ray : Ray ℝ) (cyl : Cylinder ℝ) (target : ℝ) (limit : Nat)
+    (hmiss : ∀ t : ℝ, target < |cylinderFunction (ray.o + Vec3.smul t ray.d) cyl|) :
+    (intersectCylinderWith ray cyl target limit).isHit = false := by
+  cases hr : intersectCylinderWith ray cyl target limit with
+  | hit d p k =>
+    obtain ⟨hres, _, _, dprev, _, hp, _⟩ := C12_parametric_hit_residual _ ray target limit d p k hr
+    rw [cylinderFunctionN_eq, hp] at hres
+    exact absurd hres (not_le.mpr (hmiss dprev))
+  | miss w k => rfl
+  | unbound => rfl
+
+/-- rays PARALLEL to the axis (`d = s (p - c)`), including the zero direction (`s = 0`): the cylinder function is constant along the ray,
+    so a ray that does not start within the tolerance of the surface is never reported as a hit -/
+theorem C12_gen_cylinder_parallel_ray (ray : Ray ℝ) (cyl : Cylinder ℝ) (target : ℝ) (limit : Nat) (s : ℝ)
+    (hpar : ray.d = Vec3.smul s (cyl.p - cyl.c)) (hout : target < |cylinderFunction ray.o cyl|) :
+    (intersectCylinderWith ray cyl target limit).isHit = false := by
+  apply C12_gen_cylinder_line_misses
+  intro t
+  rw [hpar, cylinderFunction, lineDistSq_parallel]
+  exact hout
+
+/-- [regenerated wiring of `intersect_w_cylinder`] it calls `intersect_parametric(ray, cylinder, cylinder_function,
+    get_cylinder_normal)` - the cylinder function and the cylinder normal, in the positions of the surface function and the normal
+    function, tolerance and limit left at their defaults - unpacks `(distance, normal)` and returns `(normal, distance)` -/
+theorem C12_gen_cylinder_wiring :
+    cylinderIntersectCall = ["intersect_parametric", "ray", "cylinder", "cylinder_function", "get_cylinder_normal"] ∧
+    cylinderIntersectUnpack = ["distance", "normal"] ∧ cylinderIntersectReturn = ["normal", "distance"] := by decide
+
+/-- non-vacuity: the unit cylinder about the z axis through the origin; the point (2, 0, 5) has squared axis distance 4, residual 3 -/
+example : cylinderFunction (⟨2, 0, 5⟩ : Vec3 ℝ) ⟨⟨0, 0, 0⟩, 1, ⟨0, 0, 1⟩⟩ = 3 := by
+  simp only [cylinderFunction, lineDistSq]; gen_simp; norm_num
 
 end Odak
